@@ -572,6 +572,63 @@ func (s *Sim) PassThrough() bool { return s.pass.Load() }
 // stay parked until released by Loop or Finish).
 func (s *Sim) SetPassThrough(v bool) { s.pass.Store(v) }
 
+// DeadlockSite inspects two full goroutine dumps of a wedged process. It
+// returns the innermost mutagen function of a goroutine that waits for a mutex
+// when (a) no goroutine other than the dumping one is running or runnable in
+// either dump and (b) the same goroutine waits in both; otherwise "".
+func DeadlockSite(first, second string) string {
+	type g struct{ id, state, site string }
+	parse := func(dump string) (gs []g, busy bool) {
+		for i, block := range strings.Split(dump, "\n\n") {
+			head, rest, _ := strings.Cut(block, "\n")
+			if !strings.HasPrefix(head, "goroutine ") {
+				continue
+			}
+			open, close := strings.IndexByte(head, '['), strings.LastIndexByte(head, ']')
+			if open < 0 || close < open {
+				continue
+			}
+			state := head[open+1 : close]
+			if i > 0 && (strings.HasPrefix(state, "running") || strings.HasPrefix(state, "runnable")) {
+				busy = true
+			}
+			site := ""
+			for _, line := range strings.Split(rest, "\n") {
+				if strings.HasPrefix(line, "github.com/mutagen-io/mutagen/pkg/") {
+					site = line
+					if k := strings.LastIndexByte(site, '('); k > 0 {
+						site = site[:k]
+					}
+					site = strings.TrimPrefix(site, "github.com/mutagen-io/mutagen/pkg/")
+					break
+				}
+			}
+			gs = append(gs, g{strings.Fields(head)[1], state, site})
+		}
+		return
+	}
+	a, busyA := parse(first)
+	b, busyB := parse(second)
+	if busyA || busyB {
+		return ""
+	}
+	waiting := map[string]string{}
+	for _, x := range a {
+		if strings.Contains(x.state, "Mutex") && x.site != "" {
+			waiting[x.id] = x.site
+		}
+	}
+	best := ""
+	for _, x := range b {
+		if strings.Contains(x.state, "Mutex") && x.site != "" && waiting[x.id] == x.site {
+			if best == "" || x.site < best {
+				best = x.site
+			}
+		}
+	}
+	return best
+}
+
 // Run executes body inside a fresh synctest bubble and collects the result.
 func Run(t *testing.T, plan *Plan, opt Options, body func(s *Sim)) *Result {
 	if opt.MaxSteps == 0 {
@@ -591,6 +648,17 @@ func Run(t *testing.T, plan *Plan, opt Options, body func(s *Sim)) *Result {
 	watchdog := time.AfterFunc(opt.RealTimeout, func() {
 		buf := make([]byte, 1<<20)
 		n := runtime.Stack(buf, true)
+		first := string(buf[:n])
+		// Tell a deadlock inside the code under test from a slow or stuck
+		// harness: nothing is running in two dumps taken apart, and a
+		// goroutine waits for a mutex from inside mutagen code (such a wait is
+		// not a durable block, so the bubble can never become idle again).
+		time.Sleep(1500 * time.Millisecond)
+		n = runtime.Stack(buf, true)
+		if site := DeadlockSite(first, string(buf[:n])); site != "" {
+			fmt.Fprintf(os.Stderr, "DEADLOCK: site=%s run seed=%d scenario=%s: nothing runs and a goroutine waits for a mutex inside the code under test\n%s\n", site, plan.Seed, plan.Scenario, buf[:n])
+			os.Exit(4)
+		}
 		fmt.Fprintf(os.Stderr, "WATCHDOG: run seed=%d scenario=%s wedged for %v (real time)\n%s\n", plan.Seed, plan.Scenario, opt.RealTimeout, buf[:n])
 		os.Exit(3)
 	})
